@@ -729,8 +729,15 @@ func (s *state) alterType(b *sqlx.Builder, alter *changeGroup, t *schema.Table, 
 			Cmd:     drop,
 			Reverse: create,
 		})
-		toT, err := FormatType(c.To.Type.Type)
-		if err != nil {
+		var (
+			toT string
+			err error
+		)
+		// Enum types are referenced by their (qualified and
+		// quoted) identifier, as in the default case below.
+		if e, ok := c.To.Type.Type.(*schema.EnumType); ok {
+			toT = s.enumIdent(e)
+		} else if toT, err = FormatType(c.To.Type.Type); err != nil {
 			return err
 		}
 		fromT, err := FormatType(fromS.IntegerType())
